@@ -5,4 +5,4 @@ cd /verif
 ids=$(python3 -c "import json; print(' '.join(c['property_id'] for c in json.load(open('MANIFEST.json'))['checks']))")
 run() { s=$(date +%s); VERIF_SEED=$seed timeout 3600 ./check $1 --tier $tier > /tmp/runall_$1.out 2>&1; rc=$?; e=$(date +%s); echo "$1 rc=$rc $((e-s))s viol=$(grep -c VIOLATION /tmp/runall_$1.out) known=$(grep -c KNOWN-FINDING /tmp/runall_$1.out)"; }
 export -f run; export tier seed
-echo $ids | tr ' ' '\n' | xargs -P 4 -I{} bash -c 'run {}'
+echo $ids | tr ' ' '\n' | xargs -P ${RUNALL_P:-4} -I{} bash -c 'run {}'
